@@ -1,6 +1,7 @@
 package main
 
 import (
+	"fmt"
 	"go/token"
 	"go/types"
 	"sort"
@@ -115,15 +116,18 @@ func init() {
 			}
 			ins := map[string]bool{}
 			del := map[string]bool{}
+			var insKeys, delKeys []ssa.Value
 			var insFn, delFn *ssa.Function
 			for _, fn := range r.w.Funcs(sp) {
 				eachInstr(fn, func(in ssa.Instruction) {
 					if mu, ok := in.(*ssa.MapUpdate); ok && strings.HasSuffix(pathOf(mu.Map), ".hashRing") {
 						ins[keyExpr(mu.Key)] = true
+						insKeys = append(insKeys, mu.Key)
 						insFn = fn
 					}
 					if c := callCommon(in); c != nil && builtinName(c) == "delete" && strings.HasSuffix(pathOf(c.Args[0]), ".hashRing") {
 						del[keyExpr(c.Args[1])] = true
+						delKeys = append(delKeys, c.Args[1])
 						delFn = fn
 					}
 				})
@@ -136,6 +140,51 @@ func init() {
 			for k := range ins {
 				if !del[k] {
 					same = false
+				}
+			}
+			if !same && len(ins) == len(del) {
+				// written differently: compare the expressions that differ bit by bit over their loop iterations
+				var a, b []map[string]bool
+				okSem := true
+				for _, k := range insKeys {
+					if !del[keyExpr(k)] {
+						if s, ok := symKeySet(k); ok {
+							a = append(a, s)
+						} else {
+							okSem = false
+						}
+					}
+				}
+				for _, k := range delKeys {
+					if !ins[keyExpr(k)] {
+						if s, ok := symKeySet(k); ok {
+							b = append(b, s)
+						} else {
+							okSem = false
+						}
+					}
+				}
+				if okSem && len(a) == len(b) && len(a) > 0 {
+					match := 0
+					for _, x := range a {
+						for _, y := range b {
+							if len(x) == len(y) {
+								eq := true
+								for kx := range x {
+									if !y[kx] {
+										eq = false
+									}
+								}
+								if eq {
+									match++
+									break
+								}
+							}
+						}
+					}
+					if match == len(a) {
+						same = true
+					}
 				}
 			}
 			r.Check(same, fname(delFn), "Remove deletes the keys add inserted", delFn.Pos(), "add and Remove compute identical key expressions (%d forms)", "the ring keys deleted by Remove are not the expressions add inserts (insert %v / delete %v): removing an endpoint leaves its points behind or deletes other endpoints' points", map[bool]any{true: len(ins), false: keys(ins)}[same], keys(del))
@@ -478,4 +527,262 @@ func init() {
 				})
 			}
 		}})
+}
+
+// ---- bit-level comparison of ring key expressions (used when the structural comparison fails) ----
+
+// symKeySet renders the ring key `key` for every value of the constant-bounded loop counter it depends
+// on, bit by bit: each of the 32 bits is 0, 1 or an atom "<source>[i].b" (bit b of byte i of the array
+// the key is assembled from). Two key computations that produce the same set are the same function of
+// the digest, whatever the loop stride, masks or operand order used to write them.
+func symKeySet(key ssa.Value) (map[string]bool, bool) {
+	// the loop counters the key depends on
+	var phis []*ssa.Phi
+	seen := map[ssa.Value]bool{}
+	var find func(v ssa.Value, d int)
+	find = func(v ssa.Value, d int) {
+		if v == nil || seen[v] || d > 24 {
+			return
+		}
+		seen[v] = true
+		switch x := v.(type) {
+		case *ssa.Phi:
+			phis = append(phis, x)
+		case *ssa.BinOp:
+			find(x.X, d+1)
+			find(x.Y, d+1)
+		case *ssa.UnOp:
+			find(x.X, d+1)
+		case *ssa.Convert:
+			find(x.X, d+1)
+		case *ssa.IndexAddr:
+			find(x.Index, d+1)
+		case *ssa.Index:
+			find(x.Index, d+1)
+		}
+	}
+	find(key, 0)
+	if len(phis) != 1 {
+		return nil, false
+	}
+	phi := phis[0]
+	// iteration space: start, step constants; header condition phi < / <= const
+	var start, step int64
+	haveStart, haveStep := false, false
+	for _, e := range phi.Edges {
+		if bo, ok := e.(*ssa.BinOp); ok && bo.X == ssa.Value(phi) && (bo.Op == token.ADD || bo.Op == token.SUB) {
+			if k, ok := constInt(bo.Y); ok {
+				step, haveStep = k, true
+				if bo.Op == token.SUB {
+					step = -k
+				}
+				continue
+			}
+		}
+		if k, ok := constInt(e); ok {
+			start, haveStart = k, true
+		}
+	}
+	iff, ok := phi.Block().Instrs[len(phi.Block().Instrs)-1].(*ssa.If)
+	if !ok || !haveStart || !haveStep || step == 0 {
+		return nil, false
+	}
+	cond, ok := iff.Cond.(*ssa.BinOp)
+	if !ok || cond.X != ssa.Value(phi) {
+		return nil, false
+	}
+	bound, ok := constInt(cond.Y)
+	if !ok {
+		return nil, false
+	}
+	holds := func(v int64) bool {
+		switch cond.Op {
+		case token.LSS:
+			return v < bound
+		case token.LEQ:
+			return v <= bound
+		case token.GTR:
+			return v > bound
+		case token.GEQ:
+			return v >= bound
+		case token.NEQ:
+			return v != bound
+		}
+		return false
+	}
+	var evalInt func(v ssa.Value, k int64) (int64, bool)
+	evalInt = func(v ssa.Value, k int64) (int64, bool) {
+		switch x := v.(type) {
+		case *ssa.Const:
+			return constInt(x)
+		case *ssa.Phi:
+			if x == phi {
+				return k, true
+			}
+		case *ssa.Convert:
+			return evalInt(x.X, k)
+		case *ssa.BinOp:
+			a, ok1 := evalInt(x.X, k)
+			b, ok2 := evalInt(x.Y, k)
+			if ok1 && ok2 {
+				switch x.Op {
+				case token.ADD:
+					return a + b, true
+				case token.SUB:
+					return a - b, true
+				case token.MUL:
+					return a * b, true
+				}
+			}
+		}
+		return 0, false
+	}
+	type bits [32]string
+	zero := func() bits {
+		var b bits
+		for i := range b {
+			b[i] = "0"
+		}
+		return b
+	}
+	var sym func(v ssa.Value, k int64, d int) (bits, bool)
+	sym = func(v ssa.Value, k int64, d int) (bits, bool) {
+		if d > 24 {
+			return bits{}, false
+		}
+		switch x := v.(type) {
+		case *ssa.Const:
+			c, ok := constInt(x)
+			if !ok {
+				return bits{}, false
+			}
+			b := zero()
+			for i := 0; i < 32; i++ {
+				if c>>uint(i)&1 == 1 {
+					b[i] = "1"
+				}
+			}
+			return b, true
+		case *ssa.Convert:
+			in, ok := sym(x.X, k, d+1)
+			if !ok {
+				return bits{}, false
+			}
+			// zero-extension from the source width (only unsigned sources occur here)
+			w := 32
+			if bt, ok := x.X.Type().Underlying().(*types.Basic); ok {
+				switch bt.Kind() {
+				case types.Uint8:
+					w = 8
+				case types.Uint16:
+					w = 16
+				case types.Int8, types.Int16, types.Int32, types.Int, types.Int64:
+					return bits{}, false
+				}
+			}
+			for i := w; i < 32; i++ {
+				in[i] = "0"
+			}
+			return in, true
+		case *ssa.UnOp:
+			if x.Op != token.MUL {
+				return bits{}, false
+			}
+			ia, ok := x.X.(*ssa.IndexAddr)
+			if !ok {
+				return bits{}, false
+			}
+			idx, ok := evalInt(ia.Index, k)
+			if !ok {
+				return bits{}, false
+			}
+			src := "buf"
+			if al, ok := ia.X.(*ssa.Alloc); ok {
+				if sv, ok := singleStore(al); ok && sv != nil {
+					if c, ok := sv.(*ssa.Call); ok {
+						src = funcID(calleeObj(&c.Call))
+					}
+				}
+			}
+			b := zero()
+			for i := 0; i < 8; i++ {
+				b[i] = fmt.Sprintf("%s[%d].%d", src, idx, i)
+			}
+			return b, true
+		case *ssa.BinOp:
+			switch x.Op {
+			case token.SHL, token.SHR:
+				in, ok := sym(x.X, k, d+1)
+				n, ok2 := evalInt(x.Y, k)
+				if !ok || !ok2 || n < 0 || n > 31 {
+					return bits{}, false
+				}
+				out := zero()
+				for i := 0; i < 32; i++ {
+					j := i + int(n)
+					if x.Op == token.SHR {
+						j = i - int(n)
+					}
+					if j >= 0 && j < 32 {
+						out[j] = in[i]
+					}
+				}
+				return out, true
+			case token.OR, token.AND, token.XOR, token.ADD:
+				a, ok1 := sym(x.X, k, d+1)
+				b, ok2 := sym(x.Y, k, d+1)
+				if !ok1 || !ok2 {
+					return bits{}, false
+				}
+				out := zero()
+				for i := 0; i < 32; i++ {
+					p, q := a[i], b[i]
+					if p > q {
+						p, q = q, p
+					}
+					switch x.Op {
+					case token.OR, token.XOR, token.ADD:
+						switch {
+						case p == "0":
+							out[i] = q
+						case x.Op == token.OR && (p == "1" || q == "1"):
+							out[i] = "1"
+						case x.Op == token.OR && p == q:
+							out[i] = p
+						default:
+							if x.Op == token.ADD {
+								return bits{}, false // carries: not bit-wise
+							}
+							out[i] = "(" + p + x.Op.String() + q + ")"
+						}
+					case token.AND:
+						switch {
+						case p == "0" || q == "0":
+							out[i] = "0"
+						case p == "1":
+							out[i] = q
+						case q == "1":
+							out[i] = p
+						case p == q:
+							out[i] = p
+						default:
+							out[i] = "(" + p + "&" + q + ")"
+						}
+					}
+				}
+				return out, true
+			}
+		}
+		return bits{}, false
+	}
+	out := map[string]bool{}
+	n := 0
+	for k := start; holds(k) && n < 64; k, n = k+step, n+1 {
+		b, ok := sym(key, k, 0)
+		if !ok {
+			return nil, false
+		}
+		out[strings.Join(b[:], ",")] = true
+	}
+	return out, n > 0 && n < 64
 }
